@@ -2,7 +2,7 @@
    (bool/option/list/prod/unit/sumbool mapped to OCaml's); N, Z, positive and
    nat stay the extracted inductive datatypes.  No Extract Constant. *)
 From Coq Require Extraction ExtrOcamlBasic.
-From SyModel Require Import Adler Delta Filter Bisync Engine Wire Sparse Verify Links Temp Crash Caches Xattr.
+From SyModel Require Import Adler Delta Filter Bisync Engine EngineFaults Wire Sparse Verify Links Temp Crash Caches Xattr.
 Extraction Language OCaml.
 Set Extraction AccessOpaque.
 Extraction "model.ml"
@@ -10,7 +10,7 @@ Extraction "model.ml"
   Delta.apply Delta.copy_in_range Delta.cks_id Delta.gen_mem_id Delta.gen_stream_id Delta.gen_stream_impl Delta.list_eqb
   Filter.should_include Filter.build_rules Filter.engine_select Filter.listing_ok
   Bisync.classify Bisync.resolve Bisync.bisync Bisync.run_step Bisync.drop_row Bisync.write_at Bisync.empty_world Bisync.actions_of Bisync.converged
-  Engine.run Engine.exit_status
+  Engine.run Engine.exit_status EngineFaults.run_f
   Wire.should_compress_smart Wire.sniff_receive_file Wire.sniff_apply_delta Sparse.receive_sparse Sparse.detect Sparse.pack
   Verify.verify Verify.verify_exit
   Links.sync_link Links.wrote_through Xattr.xstep Xattr.xinit Xattr.observe_attrs
